@@ -1845,6 +1845,7 @@ impl DnsOutgoing {
     pub(crate) fn add_answer_with_additionals(
         &mut self,
         msg: &DnsIncoming,
+        q_name: &str,
         service: &ServiceInfo,
         intf: &MyIntf,
         dns_registry: &DnsRegistry,
@@ -1864,10 +1865,16 @@ impl DnsOutgoing {
         let service_fullname = dns_registry.resolve_name(service.get_fullname());
         let hostname = dns_registry.resolve_name(service.get_hostname());
 
+        // The PTR that answers the question is the one owned by the name that was asked
+        // for: the subtype PTR for a subtype question, the service type PTR otherwise.
+        let asked_subtype = service
+            .get_subtype()
+            .as_deref()
+            .filter(|sub| *sub == q_name);
         let ptr_added = self.add_answer(
             msg,
             DnsPointer::new(
-                service.get_type(),
+                asked_subtype.unwrap_or(service.get_type()),
                 RRType::PTR,
                 CLASS_IN,
                 service.get_other_ttl(),
@@ -1880,15 +1887,17 @@ impl DnsOutgoing {
             return;
         }
 
-        if let Some(sub) = service.get_subtype() {
-            trace!("Adding subdomain {}", sub);
-            self.add_additional_answer(DnsPointer::new(
-                sub,
-                RRType::PTR,
-                CLASS_IN,
-                service.get_other_ttl(),
-                service_fullname.to_string(),
-            ));
+        if asked_subtype.is_none() {
+            if let Some(sub) = service.get_subtype() {
+                trace!("Adding subdomain {}", sub);
+                self.add_additional_answer(DnsPointer::new(
+                    sub,
+                    RRType::PTR,
+                    CLASS_IN,
+                    service.get_other_ttl(),
+                    service_fullname.to_string(),
+                ));
+            }
         }
 
         // Add recommended additional answers according to
